@@ -406,12 +406,21 @@ def check_etags(ctx, model, falcon, quick):
         if rng.random() < 0.6:
             vals.append((mutate(rng, text), None))
     vals += [(s, None) for s in short_strings('Ww/"a,* ', 4 if quick else 5)]
+    other_vals = ['"other"', 'W/"o1", "o2"', '*', '']
     for v, tags in vals:
         for stack, mk in (('wsgi', mk_wsgi), ('asgi', mk_asgi)):
             attr = rng.choice(['if_match', 'if_none_match'])
-            req = mk(falcon, [(attr.replace('_', '-'), v)])
-            a, b = twice(falcon, req, attr, etag_obs)
+            other = 'if_none_match' if attr == 'if_match' else 'if_match'
+            ov = rng.choice(other_vals)
+            req = mk(falcon, [(attr.replace('_', '-'), v), (other.replace('_', '-'), ov)])
+            if rng.random() < 0.5:      # the twin accessor is read first: its cache must not leak
+                oa = read(falcon, req, other, etag_obs)
+                a, b = twice(falcon, req, attr, etag_obs)
+            else:
+                a, b = twice(falcon, req, attr, etag_obs)
+                oa = read(falcon, req, other, etag_obs)
             sec.add([6, [v]], (v, tags, stack, attr, a, b))
+            sec.add([6, [ov]], (ov, None, stack, other, oa, oa))
     for (v, tags, stack, attr, a, b), out in sec.run():
         mod = (0, m_etags(out))
         ctx.count('etags')
@@ -723,8 +732,11 @@ def replay(ctx, obj, quiet=False):
     """Re-run one recorded (accessor, header, value) on the current implementation."""
     import falcon
     import falcon.asgi
-    if 'accessor' not in obj or 'header' not in obj or obj.get('value') is None:
+    if (obj.get('kind') != 'accessor-raised-non-http-exception' or 'accessor' not in obj
+            or 'header' not in obj or obj.get('value') is None):
+        # RFC-reading / stability / correspondence failures: re-run the (seeded, deterministic) check
         if not quiet:
+            ctx.rng.seed(obj.get('seed', ctx.seed))
             main(ctx)
         return
     mk = mk_asgi if obj.get('stack') == 'asgi' else mk_wsgi
